@@ -336,13 +336,52 @@ def _where(repo, uni, mod, node):
             return where
 
 
+def _confined(node):
+    """Is the instance made by this constructor call bound to one local
+    name that is only ever used as the receiver of attribute accesses
+    (x.method(..), x.field) in the function that made it?  Such an
+    instance lives and dies inside one call of that function, whatever the
+    function's role."""
+    par = getattr(node, '_parent', None)
+    if not (isinstance(node, ast.Call) and isinstance(par, ast.Assign) and
+            len(par.targets) == 1 and isinstance(par.targets[0], ast.Name)
+            and par.value is node):
+        return False
+    scope = model.enclosing(node, (ast.FunctionDef, ast.AsyncFunctionDef))
+    if scope is None:
+        return False
+    nm = par.targets[0].id
+    if nm in {a.arg for a in scope.args.posonlyargs + scope.args.args +
+              scope.args.kwonlyargs} or any(
+            isinstance(x, (ast.Global, ast.Nonlocal)) and nm in x.names
+            for x in ast.walk(scope)):
+        return False
+    for x in ast.walk(scope):
+        if not (isinstance(x, ast.Name) and x.id == nm):
+            continue
+        if model.enclosing(x, (ast.FunctionDef, ast.AsyncFunctionDef,
+                               ast.Lambda)) is not scope:
+            return False        # captured by a closure
+        if isinstance(x.ctx, ast.Store):
+            if x is not par.targets[0]:
+                return False
+        elif isinstance(x.ctx, ast.Load):
+            p = getattr(x, '_parent', None)
+            if not (isinstance(p, ast.Attribute) and p.value is x):
+                return False
+        else:
+            return False
+    return True
+
+
 def split_stateful(repo, uni, stateful):
     """call-local classes (every instance is born inside an evaluation-time
     function body) vs. shared ones."""
     local, shared = {}, {}
     for key, (ci, why) in stateful.items():
         sites = instantiation_sites(repo, uni, ci)
-        bad = [s for s in sites if s[2] != 'evaluation']
+        bad = [s for s in sites if s[2] != 'evaluation' and
+               not _confined(s[1])]
         outer = model.enclosing(ci.node, (ast.FunctionDef,
                                           ast.AsyncFunctionDef))
         born_in_call = False
@@ -364,7 +403,8 @@ def check_r18c(repo, rep, uni, local, shared):
     n = 0
     for key, (ci, why, sites) in sorted(local.items()):
         rep.ob('R18c', key, True, '%d instantiation sites, all inside '
-               'evaluation-time function bodies' % len(sites))
+               'evaluation-time function bodies or confined to a local of '
+               'the function that makes the instance' % len(sites))
     for key, (ci, why, sites) in sorted(shared.items()):
         for mod, node, where in sites:
             if where == 'evaluation':
